@@ -96,12 +96,12 @@ def plan(pid, tier, seed, fx):
     jobs = []
     if pid in ("C17", "C18"):
         fixtures = SYNC_FIX + ASYNC_FIX
-        nprog = 160 if thorough else 30
+        nprog = 500 if thorough else 30
         for f in fixtures:
             A = alphabet(fx, f, with_stats=(pid == "C17"))
             for pre in prefixes(fx, f):
                 jobs.append({"fixtures": [f], "prefix": pre, "programs": programs(rng, A, 2, 2, nprog),
-                             "strategy": {"kind": "dfs", "max_schedules": 120 if thorough else 30, "preempt": 2},
+                             "strategy": {"kind": "dfs", "max_schedules": 400 if thorough else 30, "preempt": 3 if thorough else 2},
                              "probe": probe_for(fx, f) if pid == "C18" else [], "hang_ms": 20000})
             # same-key races, exhaustively over a small alphabet (both threads hit the same entries)
             cn = fx[f]["cache_name"]
@@ -123,26 +123,28 @@ def plan(pid, tier, seed, fx):
                              "strategy": {"kind": "dfs", "max_schedules": 200 if thorough else 50, "preempt": 2},
                              "probe": probe_for(fx, f) if pid == "C18" else [], "hang_ms": 20000})
             if thorough:
-                jobs.append({"fixtures": [f], "prefix": prefixes(fx, f)[1], "programs": programs(rng, A, 3, 2, 60),
-                             "strategy": {"kind": "dfs", "max_schedules": 150, "preempt": 2},
+                jobs.append({"fixtures": [f], "prefix": prefixes(fx, f)[1], "programs": programs(rng, A, 3, 2, 300),
+                             "strategy": {"kind": "dfs", "max_schedules": 400, "preempt": 2},
                              "probe": probe_for(fx, f) if pid == "C18" else [], "hang_ms": 20000})
             jobs.append({"fixtures": [f], "prefix": prefixes(fx, f)[-1], "programs": programs(rng, A, 3 if thorough else 2, 3, 25 if thorough else 8),
-                         "strategy": {"kind": "random", "max_schedules": 200 if thorough else 40, "seed": seed},
+                         "strategy": {"kind": "random", "max_schedules": 2000 if thorough else 40, "seed": seed},
                          "probe": probe_for(fx, f) if pid == "C18" else [], "hang_ms": 20000})
     elif pid == "C03":
         for f in ("s_plain", "a_plain"):
             A = [call(f, 1), call(f, 2)]
-            for nt, ml, n in ((2, 2, 40), (3, 1, 8), (3, 2, 60 if thorough else 20)):
+            for nt, ml, n in ((2, 2, 40), (3, 1, 8), (3, 2, 400 if thorough else 20), (2, 3, 300 if thorough else 0)):
+                if n == 0:
+                    continue
                 jobs.append({"fixtures": [f], "prefix": [], "programs": programs(rng, A, nt, ml, n),
-                             "strategy": {"kind": "dfs", "max_schedules": 400 if thorough else 120, "preempt": 3 if thorough else 2},
+                             "strategy": {"kind": "dfs", "max_schedules": 3000 if thorough else 120, "preempt": 3 if thorough else 2},
                              "probe": [], "hang_ms": 20000})
     elif pid == "C15":
         for f in ("s_plain", "a_plain", "s_lru2", "a_lru2", "s_fifo3_ttl2", "a_fifo3_ttl2", "s_lfu2", "a_lfu2", "g_alias",
                   "g_alias_async", "s_res_lru2", "a_res_lru2"):
             A = [call(f, 1), call(f, 2), call(f, 3), {"op": "inv_with", "x": fx[f]["cache_name"], "sel": ["1", "2"]}]
             for pre in prefixes(fx, f)[:3]:
-                jobs.append({"fixtures": [f], "prefix": pre, "programs": programs(rng, A, 2, 2, 60 if thorough else 20),
-                             "strategy": {"kind": "dfs", "max_schedules": 150 if thorough else 40, "preempt": 2},
+                jobs.append({"fixtures": [f], "prefix": pre, "programs": programs(rng, A, 3 if thorough else 2, 2, 400 if thorough else 20),
+                             "strategy": {"kind": "dfs", "max_schedules": 600 if thorough else 40, "preempt": 2},
                              "probe": [{"op": "stats_get", "x": fx[f]["cache_name"]}], "hang_ms": 20000})
     return jobs
 
